@@ -57,7 +57,7 @@ fn sleep_until(sec: u64, millis: u64) {
     }
 }
 
-fn request_bytes(c: Cipher, users: usize, ts: u64, typ: u8, rng: &mut SmallRng) -> Vec<u8> {
+pub(crate) fn request_bytes(c: Cipher, users: usize, ts: u64, typ: u8, rng: &mut SmallRng) -> Vec<u8> {
     let (cp, _, _) = sut::ss_passwords(c, users);
     let mut salt = vec![0u8; c.key_len()];
     rng.fill(&mut salt[..]);
@@ -65,7 +65,7 @@ fn request_bytes(c: Cipher, users: usize, ts: u64, typ: u8, rng: &mut SmallRng) 
     rc::ss2022_request(c, &cp, &r).out
 }
 
-fn present(listener: &sv::Listener, bytes: &[u8]) -> sut::Got {
+pub(crate) fn present(listener: &sv::Listener, bytes: &[u8]) -> sut::Got {
     match listener.new_codec() {
         Ok(mut codec) => sut::server_decode(&mut codec, &mut BytesMut::from(bytes)),
         Err(e) => sut::Got::Err(format!("new_codec: {e}")),
